@@ -12,7 +12,7 @@ CHECKS = {
         category="model_checking",
         engine="E2 + H1",
         technique="stateless schedule exploration (hand-rolled, CHESS style): all await-point interleavings of k client tasks against the real Clock actor, re-execution from choice prefixes, deviation-bounded for k=3",
-        text="k=2 client tasks with 2-4 calls each (get_time / register_ts of stamps in the same tick, 1 s ahead, near the drift limit, beyond it, with the clock's own node id) are explored over ALL interleavings of their await points; k=3 up to 2 (quick) / 3 (thorough) deviations, in fine-grained mode (one poll of one task - a caller or the clock actor - per step, runtime event_interval 1); three injected wall-clock behaviours (stalled, ticking, jumping backwards). Every execution is checked: stamps pairwise distinct, strictly increasing per task, every get_time invoked after a register_ts returned exceeds the registered stamp unless it was beyond the drift limit. Every 97th execution is run twice and must reproduce.",
+        text="k=2 client tasks with 2-4 calls each (get_time / register_ts of stamps in the same tick, 1 s ahead, near the drift limit, beyond it, with the clock's own node id, with counters in the actor's back-pressure region) are explored over ALL interleavings of their await points; k=3 up to 2 (quick) / 3 (thorough) deviations, in fine-grained mode (one poll of one task - a caller or the clock actor - per step, runtime event_interval 1); three injected wall-clock behaviours (stalled, ticking, jumping backwards). Every execution is checked: stamps pairwise distinct, strictly increasing per task, every get_time invoked after a register_ts returned exceeds the registered stamp unless it was beyond the drift limit. Every 97th execution is run twice and must reproduce.",
         note="Current-thread runtime, await-point granularity. Multi-threaded runtimes are argued equivalent to some FIFO enqueue order into the actor's channel (DESIGN.md), not explored.",
         design="DESIGN.md section 3, C11",
     ),
@@ -28,7 +28,7 @@ CHECKS = {
         category="exploration",
         engine="E4 + H3",
         technique="bounded exhaustive input enumeration: all single-bit flips / truncations / extensions of every family frame against the real DataView::using with an independent bitwise CRC-32 reference, plus round trips through the real client/handler over the in-process transport",
-        text="Every value of a message family (fixed, text/bytes/option, nested; payload sizes from a boundary grid up to 64 KiB, 1 MiB in thorough) is sent through the real RpcClient -> handle_connection -> handler and back and compared on both sides; every ErrorCode x message text comes back unchanged; for every frame up to 300 (quick) / 1100 (thorough) bytes ALL single-bit flips, ALL truncations, 12 extensions and every CRC-valid body shorter than the archived root are judged by DataView::using exactly as the reference predicate demands, and the same hostile frames handed to a typed handler are refused as InvalidPayload without the handler running or anything panicking.",
+        text="Every value of a message family (fixed, text/bytes/option, nested, four tiny types with alignment 1-2 and sizes not divisible by 4; payload sizes from a boundary grid up to 64 KiB, 1 MiB in thorough) is sent through the real RpcClient -> handle_connection -> handler and back and compared on both sides; every ErrorCode x message text comes back unchanged; for every frame up to 300 (quick) / 1100 (thorough) bytes ALL single-bit flips, ALL truncations, 12 extensions and every CRC-valid body shorter than the archived root are judged by DataView::using exactly as the reference predicate demands, and the same hostile frames handed to a typed handler are refused as InvalidPayload without the handler running or anything panicking.",
         note="In-process transport: hyper/h2 chunking bypassed (single-chunk bodies). Debug assertions on, so an out-of-range root position is a panic, not UB.",
         design="DESIGN.md section 3, C12",
     ),
@@ -84,7 +84,7 @@ CHECKS = {
         category="model_checking",
         engine="E1 by replay, Layer B single node",
         technique="explicit-state BFS by history replay on the real keyspace actor with a fault-injecting storage wrapper; state = (decoded Serialize reply, store rows); agreement oracle after every request",
-        text="Requests Set/Del/MultiSet (incl. the same id twice, both stamp orders)/MultiDel/PurgeDeletes with stamps from a grid with >1h gaps, two origins, both sources, any arrival order, and per storage call the answers ok / fail-before / fail-after-k / fail-only-document-i (exactly the written ids reported; the last is a non-prefix partial failure) are sent to the real actor through its mailbox. After every request, successful or failed, live ids+stamps of the set must equal the store's documents, tombstones must equal the store's tombstones, and stored bytes must belong to the write whose stamp the row carries. Depth 3 on a harness map store and depth 2 on MemStore (quick), depth 4/3 (thorough).",
+        text="Requests Set/Del/MultiSet (one document, none, pairs incl. the same id twice in both stamp orders)/MultiDel/PurgeDeletes with stamps from a grid with >1h gaps, two origins, both sources, any arrival order, and per storage call the answers ok / fail-before / fail-after-k / fail-only-document-i (exactly the written ids reported; the last is a non-prefix partial failure) are sent to the real actor through its mailbox. After every request, successful or failed, live ids+stamps of the set must equal the store's documents, tombstones must equal the store's tombstones, and stored bytes must belong to the write whose stamp the row carries. Depth 3 on a harness map store and depth 2 on MemStore (quick), depth 4/3 (thorough).",
         note="Bulk calls with a duplicated id are not combined with partial storage failure (contract ambiguity). Single-document storage calls fail atomically.",
         design="DESIGN.md section 3, C02",
     ),
@@ -92,7 +92,7 @@ CHECKS = {
         category="model_checking",
         engine="E2, Layer B single node",
         technique="stateless schedule exploration of all await-point interleavings of k concurrent first users of a fresh keyspace on a real node (four real entry paths), re-execution from choice prefixes",
-        text="k=2 tasks (all 9 combinations of entry paths: group lookup + Set, public put, incoming ConsistencyService RPC, incoming GetState RPC) over ALL interleavings, k=3 up to 2 (quick) / 4 (thorough) deviations, fine-grained mode (one task poll per step). After each execution the set returned by a new lookup must contain every acknowledged id and storage must hold exactly the acknowledged writes.",
+        text="k=2 tasks (all 13 combinations of entry paths: group lookup + Set, public put, incoming ConsistencyService RPC, incoming GetState RPC, the node's own repair cycle against a peer holding the keyspace) over ALL interleavings, k=3 up to 2 (quick) / 4 (thorough) deviations, fine-grained mode (one task poll per step). After each execution the set returned by a new lookup must contain every acknowledged id and storage must hold exactly the acknowledged writes.",
         note="Await-point granularity on a current-thread runtime; the property's window lies across awaits.",
         design="DESIGN.md section 3, C18",
     ),
@@ -124,7 +124,7 @@ CHECKS = {
         category="model_checking",
         engine="E1 Layer A",
         technique="explicit-state enumeration: real diff vs independent reference on all ordered pairs of generator states (incl. purged replicas), diff applied actor-style in both batch orders, re-diff and mutual convergence checked",
-        text="For every ordered pair of replica states of the C03 generators the real OrSWotSet::diff is compared with a reference computed from the two snapshots (this decides 'lists a key exactly when ...'); the difference is applied as the keyspace actor applies a repair, in both batch orders, and the re-computed difference must be empty; both replicas then repair from each other and must expose the same live ids and stamps (the newer per key).",
+        text="For every ordered pair of replica states of the C03 generators, and of a third family (every set reachable over a 10-operation pool with >1h gaps in any order on both sources, plus purged ones: the rule is stated for all reachable sets), the real OrSWotSet::diff is compared with a reference computed from the two snapshots (this decides 'lists a key exactly when ...'); the difference is applied as the keyspace actor applies a repair, in both batch orders, and the re-computed difference must be empty; both replicas then repair from each other and must expose the same live ids and stamps (the newer per key).",
         note="The actor's batch glue (filter by will_apply at batch start, sort by stamp, source 1) is restated in 12 lines; its agreement with the real actor is checked by C02/C01. Same bounds as C03.",
         design="DESIGN.md section 3, C05",
     ),
